@@ -295,7 +295,7 @@ extern "C" int vf_run_case(const uint8_t * data, size_t size)
    {
       // arbitrary strings into the expression parser: must not crash
       static const char * const TOK[] = {"a", "b", "s", "(", ")", "!", "&&", "||", "^", "==", "!=", "<", ">=", "exists", "(int32)", "(string)", "(bool)", "(float)", "1", "-9223372036854775808", "\"ab\"", "\"", ":", ":1", "|", "|5", "what", " ", "startswith", "contains", "0x10", "3.5", "true", "\\", "(int64)", "matches", "~="};
-      std::string e; const uint32 nt = bs.u8()%24; for (uint32 i=0; i<nt; i++) {const uint8_t k = bs.u8(); if (k < 230) {e += TOK[k%(sizeof(TOK)/sizeof(TOK[0]))]; if (k&1) e += " ";} else e.push_back((char)bs.u8());}
+      std::string e; const uint32 nt = bs.u8()%24; for (uint32 i=0; i<nt; i++) {const uint8_t k = bs.u8(); if (k < 196) {e += TOK[k%(sizeof(TOK)/sizeof(TOK[0]))]; if (k&1) e += " ";} else if (k < 230) {static const char * const TOK2[] = {"(point)", "(rect)", "1,2", "1,2,3,4", "1,", "1,2,3,", ",", "p", "r", "(double)", "(int8)", "(int16)", "5", "|1,2", "(point) 5", "(rect) 1,2", "1.5,2.5"}; e += TOK2[(k-196)%17]; if (k&1) e += " ";} else e.push_back((char)bs.u8());}     /* point and rect operands and casts, with components missing */
       for (size_t i=0; i<e.size(); i++) if (e[i] == '\0') e[i] = ' ';
       ConstQueryFilterRef q = CreateQueryFilterFromExpression(e.c_str());
       if (q()) {vf::Count("arbitrary_expression_accepted"); ExerciseHostile(q, bs);} else vf::Count("arbitrary_expression_rejected");
